@@ -436,6 +436,8 @@ func (co *ClipperOffset) offsetOpenPath(group *Group, path Path64) {
 
 	if co.deltaCallback != nil {
 		co.groupDelta = (*co.deltaCallback)(&path, &co.normals, 0, 0)
+	} else {
+		delta = co.groupDelta
 	}
 
 	if math.Abs(delta) < Tolerance {
